@@ -177,7 +177,7 @@ def run_config(args):
         return common.canon_key([s.dec, sorted(s.names.items()), sorted(s.have0.items()), sorted(s.maybe0.items())])
 
     def nontrivial(s):
-        return sum(1 for v in s.names.values() if v is not None) >= 1 and (len(s.dec.data) > 0 or all(v is not None for v in s.names.values()))
+        return sum(1 for v in s.names.values() if v is not None) >= 1 and (len(getattr(s.dec, "data", ())) > 0 or all(v is not None for v in s.names.values()))
 
     res = xstate.bfs(State(cfg), enabled, step, key, max_states=max_states, nontrivial=nontrivial, stop_after=8)
     return {"label": cfg.label(), "states": res.states, "transitions": res.transitions, "depth": res.max_depth, "closed": res.closed,
